@@ -15,7 +15,7 @@ from . import core
 N_HASH_CLASSES = 16
 N_SCHEDULES = 32           # schedule ids 0..31 per workload
 N_GENX = 600             # genx:0 .. genx:N_GENX-1 (C05 / C07 only)
-N_GENY = 400             # geny:0 .. geny:N_GENY-1 (C03 / C05 / C07 only)
+N_GENY = 700             # geny:0 .. geny:N_GENY-1 (C03 / C05 / C07 only)
 N_GEN = 3000               # gen:0 .. gen:N_GEN-1 (before exclusions)
 
 
